@@ -144,6 +144,8 @@ class Unit:
             if tw:
                 want.setdefault('%s::vx_proofs::%s' % (p.name_mod(), tw), []).append(o)
         if not want:
+            self.candidate_replays(ctx, progs, failed)
+            shutil.rmtree(os.path.join(ctx.dir, 'replay_run'), ignore_errors=True)
             return
         d = self.kani_crate(ctx, [p for p in progs if any(o.prog == p.name for o in failed)])
         done = 0
@@ -175,7 +177,38 @@ class Unit:
                         o.replayed = True
                         done += 1
                         break
+        self.candidate_replays(ctx, progs, failed)
         shutil.rmtree(os.path.join(ctx.dir, 'replay_run'), ignore_errors=True)
+
+    def candidate_replay(self, ctx, prog, o):
+        """-> Rust `main` source exercising the failed function on the cases its clauses talk about, or None."""
+        return None
+
+    def candidate_replays(self, ctx, progs, failed):
+        byname = {p.name: p for p in progs}
+        done = 0
+        for o in failed:
+            if o.replayed or done >= 3 or o.backend == 'rustc':
+                continue
+            p = byname.get(o.prog)
+            if p is None:
+                continue
+            try:
+                main = self.candidate_replay(ctx, p, o)
+            except Exception as e:
+                ctx.log('candidate replay generation failed: %r' % e)
+                main = None
+            if not main:
+                continue
+            rr = replay.build_and_run(os.path.join(ctx.dir, 'replay_run'), p.module_source(), main, features=self.features)
+            fails = [l for r in rr.values() for l in r['stdout'].splitlines() if l.startswith('REPLAY-FAIL')]
+            if o.cex is None:
+                o.cex = {}
+            o.cex.update({'candidate_replay': True, 'failing_cases': fails[:6], 'native': rr})
+            o.replay_program = {'program': p.module_source(), 'main': main, 'features': list(self.features)}
+            if replay.failed(rr):
+                o.replayed = True
+                done += 1
 
     def run(self, ctx):
         progs = self.corpus(ctx)
